@@ -79,8 +79,8 @@ impl<'de> RandomAccessDeserializer<'de> for MapDeserializer<'de> {
 
     fn deserialize_map<V: Visitor<'de>>(&self, visitor: V, idx: usize) -> Result<V::Value> {
         try_(|| {
-            if idx + 1 >= self.offsets.len() {
-                fail!("Out of bounds access")
+            if !self.is_some(idx)? {
+                fail!("Required value is not defined");
             }
 
             visitor.visit_map(MapItemDeserializer {
